@@ -391,7 +391,7 @@ def larger_dies(chunk, replay=None):
     import os
     import random
     from frame.netlist.netlist import Netlist
-    from json import dumps as write_yaml        # input documents are written WITHOUT the library (JSON is a subset of YAML): the harness must not depend on the code under test
+    write_yaml = lambda d: __import__("json").dumps(d, indent=1)  # noqa: E731  input documents are written WITHOUT the library (JSON is a subset of YAML): the harness must not depend on the code under test
     tier = os.environ.get("VERIF_TIER", "quick")
     rng = random.Random(1100 + chunk + 100 * int(os.environ.get("VERIF_SEED", "0") or 0))
     n_des = 40 if tier != "thorough" else 600
